@@ -395,8 +395,6 @@ func faultSetStreams(w *World, ev func(string, ...any), stats map[string]int) *V
 			panic("HARNESS: " + err.Error())
 		}
 	}
-	w.Faults.Add(faults.Description{Operation: "StreamingPull:RecvMsg", Parameters: map[string]string{"subscription": subA}, Count: 3, FaultDescription: "R",
-		OnFault: func(faults.Description, faults.Parameters) error { return status.Error(codes.Unavailable, "injected") }})
 	type strm struct {
 		in   chan *pubsubpb.StreamingPullRequest
 		done chan struct{}
@@ -421,6 +419,19 @@ func faultSetStreams(w *World, ev func(string, ...any), stats map[string]int) *V
 			return false
 		}
 	}
+	// use up what the first phase left, so that the next stream is opened while NO fault at all
+	// is configured; a fault injected later must still reach it
+	for w.Faults.Check("GetTopic", faults.Parameters{"topic": "projects/f/topics/a"}) != nil {
+	}
+	for w.Faults.Check("DeleteTopic", nil) != nil {
+	}
+	S.Settle()
+	early := open(subB)
+	if ended(early) {
+		return viol("C18", "e2e_stream_non_matching_failed", "a stream opened while no fault is configured ended at once: %v", early.err)
+	}
+	w.Faults.Add(faults.Description{Operation: "StreamingPull:RecvMsg", Parameters: map[string]string{"subscription": subA}, Count: 3, FaultDescription: "R",
+		OnFault: func(faults.Description, faults.Parameters) error { return status.Error(codes.Unavailable, "injected") }})
 	a1 := open(subA)
 	if !ended(a1) || code(a1.err) != codes.Unavailable {
 		return viol("C18", "e2e_stream_exact_count", "first frame of a stream on %s (matching the injected RecvMsg fault) was not failed: ended=%v err=%v", subA, ended(a1), a1.err)
@@ -450,7 +461,25 @@ func faultSetStreams(w *World, ev func(string, ...any), stats map[string]int) *V
 	if left != 1 {
 		return viol("C18", "listing", "StreamingPull:RecvMsg fault fired twice out of 3 but Current() reports %d left (-1 = not listed)", left)
 	}
-	ev("stream phase: 2 matching frames failed, 2 non-matching frames passed, 1 left")
+	// the stream that was opened before any fault existed: a fault without parameters injected
+	// now must fail its next frame, and be used up by that
+	w.Faults.Add(faults.Description{Operation: "StreamingPull:RecvMsg", Count: 1, FaultDescription: "E",
+		OnFault: func(faults.Description, faults.Parameters) error { return status.Error(codes.Unavailable, "injected") }})
+	early.in <- &pubsubpb.StreamingPullRequest{AckIds: []string{"00000000-0000-0000-0000-000000000002"}}
+	S.Settle()
+	if !ended(early) || code(early.err) != codes.Unavailable {
+		if !ended(early) {
+			close(early.in)
+			S.Settle()
+		}
+		return viol("C18", "e2e_stream_exact_count", "a fault injected after the stream was opened did not fail the stream's next frame: ended=%v err=%v", ended(early), early.err)
+	}
+	for _, d := range w.Faults.Current()["StreamingPull:RecvMsg"] {
+		if d.FaultDescription == "E" {
+			return viol("C18", "listing", "the exhausted fault E is still listed with count %d", d.Count)
+		}
+	}
+	ev("stream phase: 2 matching frames failed, 2 non-matching frames passed, 1 left; late fault reached the early stream")
 	stats["fs_stream_phase"]++
 	return nil
 }
